@@ -87,17 +87,27 @@ class Gen:
                 return {"op": "adjT", "a": self.expr("G", d - 1), "b": self.expr("At", d - 1)}
             return self.inp("At")
         if sort == "V3":
-            if c < 0.7:
+            if c < 0.55:
                 return {"op": "act3", "a": self.expr("G", d - 1), "b": self.expr("V3", d - 1)}
+            if c < 0.75:      # sum of two vectors: the two branches receive the same cotangent tensor in backward
+                return {"op": "vadd", "a": self.expr("V3", d - 1), "b": self.expr("V3", d - 1)}
             return self.inp("V3")
         if sort == "V4":
-            if c < 0.7:
+            if c < 0.55:
                 return {"op": "act4", "a": self.expr("G", d - 1), "b": self.expr("V4", d - 1)}
+            if c < 0.75:
+                return {"op": "vadd", "a": self.expr("V4", d - 1), "b": self.expr("V4", d - 1)}
             return self.inp("V4")
         raise ValueError(sort)
 
     def program(self, d):
         c = self.rng.random()
+        if c < 0.07:          # X.Act(p) + Y.Act(q): both action nodes are handed one cotangent tensor
+            return {"op": "vadd", "a": {"op": "act3", "a": self.expr("G", d - 1), "b": self.expr("V3", d - 1)},
+                    "b": {"op": "act3", "a": self.expr("G", d - 1), "b": self.expr("V3", d - 1)}}
+        if c < 0.12:
+            return {"op": "vadd", "a": {"op": "act4", "a": self.expr("G", d - 1), "b": self.expr("V4", d - 1)},
+                    "b": {"op": "act4", "a": self.expr("G", d - 1), "b": self.expr("V4", d - 1)}}
         if c < 0.25:
             return {"op": "act3", "a": self.expr("G", d - 1), "b": self.expr("V3", d - 1)}
         if c < 0.4:
@@ -131,6 +141,8 @@ def interp(pp, e, env):
         return a @ b
     if op in ("act3", "act4"):
         return a.Act(b)
+    if op == "vadd":
+        return a + b
     if op == "adj":
         return a.Adj(b)
     if op == "adjT":
